@@ -105,14 +105,29 @@ inductive Op
 
 /-! ### IndexingContext.ProcessAfterUpdate over the registered constraints, in registration order -/
 
+/-- bbolt's `MaxKeySize`: `Put` refuses a longer key ("key too large") -/
+def maxKeySize : Nat := 32768
+
+/-- `uniqueIndex.ProcessAfterUpdate` with bbolt's key limit: the indexed value is the KEY of the index
+    entry, so `PutValue(newValue, rowId)` — reached when the value changed, is non-empty and free —
+    fails for a value longer than `MaxKeySize` (the entity bucket holds it as a value, which may be
+    longer); the error goes to the error holder like the others -/
+def uniqueAfterK (isCreate nullable : Bool) (old new : Bytes) (id : Id) (idx : Map Bytes Id) :
+    Except Err (Map Bytes Id) :=
+  if !isCreate && old == new then .ok idx
+  else
+    match uniqueAfter isCreate nullable old new id idx with
+    | .ok idx' => if new.length > maxKeySize then .error .other else .ok idx'
+    | .error e => .error e
+
 /-- the constraint on `name`, if registered -/
 def nameStep (sch : Schema) (isCreate : Bool) (old new : Bytes) (id : Id) (idx : Map Bytes Id) :
     Except Err (Map Bytes Id) :=
-  if sch.regName then uniqueAfter isCreate false old new id idx else .ok idx
+  if sch.regName then uniqueAfterK isCreate false old new id idx else .ok idx
 
 def aliasStep (sch : Schema) (isCreate : Bool) (old new : Bytes) (id : Id) (idx : Map Bytes Id) :
     Except Err (Map Bytes Id) :=
-  if sch.regAlias then uniqueAfter isCreate true old new id idx else .ok idx
+  if sch.regAlias then uniqueAfterK isCreate true old new id idx else .ok idx
 
 def rolesStep (sch : Schema) (old new : List Bytes) (id : Id) (idx : Map Bytes (List Id)) :
     Except Err (Map Bytes (List Id)) :=
